@@ -36,6 +36,9 @@ type Global struct {
 	TS          int  `json:"ts,omitempty"`
 	NoMethod    bool `json:"no_method,omitempty"`
 	AutoOptions bool `json:"auto_options,omitempty"`
+	// NoMethodOff (only without NoMethod): a no-method handler is configured and then switched off again by a later
+	// WithNoMethod(false): options apply in order, so unserved requests end in the no-route handler.
+	NoMethodOff bool `json:"no_method_off,omitempty"`
 }
 
 // Req is one request.
@@ -105,6 +108,26 @@ type Sink struct {
 	// lookup does with pooled contexts must leave the handler's own context alone.
 	F  *fox.Router
 	nw fox.ResponseWriter
+	// Names are the wildcard names of every registered pattern (rt.New fills them in): Context.Param is asked for each of
+	// them and must answer what Context.Params yields - the value under that name, or "" when the context has no such parameter.
+	Names []string
+}
+
+// paramDiff compares Context.Param with Context.Params for every known wildcard name.
+func (s *Sink) paramDiff(c fox.Context, ps []ref.Param) string {
+	for _, name := range s.Names {
+		want := ""
+		for _, p := range ps {
+			if p.Key == name {
+				want = p.Value
+				break
+			}
+		}
+		if got := c.Param(name); got != want {
+			return fmt.Sprintf("Context.Param(%q) = %q, but Context.Params yields %v", name, got, ps)
+		}
+	}
+	return ""
 }
 
 func (s *Sink) nested(c fox.Context) {
@@ -163,6 +186,12 @@ func GlobalOptions(g Global, sink *Sink) []fox.GlobalOption {
 			c.Writer().WriteHeader(http.StatusMethodNotAllowed)
 		}))
 	}
+	if !g.NoMethod && g.NoMethodOff {
+		opts = append(opts, fox.WithNoMethodHandler(func(c fox.Context) {
+			sink.Hits = append(sink.Hits, Hit{Kind: "nomethod", Pattern: c.Pattern(), Params: Collect(c), Scope: c.Scope(), RouteNil: c.Route() == nil})
+			c.Writer().WriteHeader(http.StatusMethodNotAllowed)
+		}), fox.WithNoMethod(false))
+	}
 	if g.AutoOptions {
 		opts = append(opts, fox.WithOptionsHandler(func(c fox.Context) {
 			sink.nested(c)
@@ -219,6 +248,9 @@ func (s *Sink) Handler(pattern string) fox.HandlerFunc {
 	return func(c fox.Context) {
 		s.nested(c)
 		hit := Hit{Kind: "route", Pattern: c.Pattern(), Params: Collect(c), Scope: c.Scope(), RouteNil: c.Route() == nil, CloneWithDiff: cloneWithDiff(c)}
+		if hit.CloneWithDiff == "" {
+			hit.CloneWithDiff = s.paramDiff(c, hit.Params)
+		}
 		fox.WrapF(func(_ http.ResponseWriter, r *http.Request) {
 			for _, p := range fox.ParamsFromContext(r.Context()) {
 				hit.Wrapped = append(hit.Wrapped, ref.Param{Key: p.Key, Value: p.Value})
@@ -244,6 +276,18 @@ func New(g Global, specs []RouteSpec) (*Router, error) {
 		return nil, err
 	}
 	sink.F = f
+	seen := map[string]bool{}
+	for _, sp := range specs {
+		if !ref.ValidPattern(sp.Pattern, 1<<16, 1<<16) {
+			continue
+		}
+		for _, w := range ref.Wildcards(sp.Pattern) {
+			if !seen[w.Name] {
+				seen[w.Name] = true
+				sink.Names = append(sink.Names, w.Name)
+			}
+		}
+	}
 	r := &Router{F: f, Sink: sink, G: g}
 	for _, s := range specs {
 		if _, err := f.Handle(s.Method, s.Pattern, sink.Handler(s.Pattern), RouteOptions(s.TS)...); err == nil {
